@@ -848,7 +848,9 @@ def svrp_technician_counter(ctx: Ctx):
     env = EnvA(ctx.repo, T.ALL_ENVS["SVRPEnv"], "SVRPEnv")
     fi = env.resolve("_get_reward")
     ctx.fn(fi)
-    loops = [n for n in ast.walk(fi.node) if isinstance(n, ast.For)]
+    from ..model import canon_counters
+    fnode = canon_counters(fi.node)
+    loops = [n for n in ast.walk(fnode) if isinstance(n, ast.For)]
     ok, why = False, f"expected one loop over the depot visits, found {len(loops)}"
     if len(loops) == 1:
         lp = loops[0]
@@ -882,8 +884,8 @@ def svrp_technician_counter(ctx: Ctx):
             row = mv.targets[0].id
             fills = [i for i, st in enumerate(blk.body) if isinstance(st, ast.Assign) and isinstance(st.targets[0], ast.Subscript)
                      and any(isinstance(x, ast.Name) and x.id == row for x in ast.walk(st.targets[0].slice)) and "tech_costs" in ast.unparse(st.value)]
-            idx_lp = fi.node.body.index(lp) if lp in fi.node.body else None
-            after = [st for st in (fi.node.body[idx_lp + 1:] if idx_lp is not None else []) if isinstance(st, ast.Assign) and isinstance(st.targets[0], ast.Subscript)
+            idx_lp = fnode.body.index(lp) if lp in fnode.body else None
+            after = [st for st in (fnode.body[idx_lp + 1:] if idx_lp is not None else []) if isinstance(st, ast.Assign) and isinstance(st.targets[0], ast.Subscript)
                      and any(isinstance(x, ast.Name) and x.id == row for x in ast.walk(st.targets[0].slice)) and "tech_costs" in ast.unparse(st.value)]
             ok2 = len(fills) == 1 and fills[0] < mi and len(after) == 1
             why2 = (f"on a row switch the open route of the row being left is charged before `{row}` moves on: {len(fills) == 1 and fills[0] < mi}; "
